@@ -238,8 +238,42 @@ pub fn check_family(name: &str, spends: &[Spend], thorough: bool) -> (u64, Vec<F
     (n, fails)
 }
 
+/// verdicts the rules prescribe at the limits (C01-C03 statements): (family, fork flags, strictness flags, accepted?)
+fn expected_verdicts() -> Vec<(&'static str, &'static str, &'static str, bool)> {
+    vec![
+        ("spend-count-5999", "none", "LIMIT_SPENDS", true), ("spend-count-6000", "none", "LIMIT_SPENDS", true),
+        ("spend-count-6001", "none", "LIMIT_SPENDS", false), ("spend-count-6001", "none", "", true),
+        ("spend-count-6000", "cost-conditions", "LIMIT_SPENDS", true), ("spend-count-6001", "cost-conditions", "LIMIT_SPENDS", false),
+        ("announcements-1024", "none", "", true), ("announcements-1025", "none", "", false), ("announcements-1025", "cost-conditions", "", true),
+        ("announcements-1024", "none", "all-three", true), ("announcements-1025", "none", "LIMIT_SPENDS", false),
+        ("messages-1", "none", "", true), ("messages-128", "none", "", true), ("messages-300", "cost-conditions", "", true),
+        ("value-exact", "none", "", true), ("value-minting", "none", "", false), ("value-fee-short", "none", "", false),
+        ("impossible-window", "none", "", false), ("impossible-window-abs", "none", "", false), ("duplicate-output", "none", "", false),
+        ("time-locks", "none", "", true), ("two-spends-concurrent", "none", "", true), ("two-spends-announcement", "none", "", true),
+        ("unknown-opcode", "none", "", true), ("unknown-opcode", "none", "NO_UNKNOWN_CONDS", false),
+        ("extra-argument", "none", "", true), ("extra-argument", "none", "STRICT_ARGS_COUNT", false),
+        ("improper-terminator", "none", "", true), ("improper-terminator", "none", "STRICT_ARGS_COUNT", false),
+    ]
+}
+
 pub fn relations_ground(thorough: bool) -> EvalResult {
     let mut res = EvalResult { obligations: 0, discharged: 0, failures: vec![], samples: vec![], exhaustive: true };
+    {
+        let fams = families();
+        for (fam, fork, strict, want) in expected_verdicts() {
+            res.obligations += 1;
+            let spends = match fams.iter().find(|f| f.0 == fam) { Some(f) => &f.1, None => continue };
+            let ff = fork_flags().into_iter().find(|f| f.0 == fork).map(|f| f.1).unwrap_or(ConsensusFlags::empty());
+            let sf = strict_sets().into_iter().find(|f| f.0 == strict).map(|f| f.1).unwrap_or(ConsensusFlags::empty());
+            let got = run(spends, ff | sf).is_ok();
+            if got == want { res.discharged += 1; } else if res.failures.len() < 6 {
+                res.failures.push(json!({"id": format!("relations_ground/{fam}/verdict/{fork}/{}", if strict.is_empty() { "lenient" } else { strict }), "function": "parse_spends",
+                    "message": format!("family {fam}, fork flags {fork}, strictness '{strict}': accepted = {got}, the rules say {want}"),
+                    "clause": "verdict at the limit prescribed by the rules",
+                    "cex": {"unit": "eval", "function": "relations_ground", "input": {"family": fam, "relation": "verdict", "fork": fork, "strict": strict, "want": want}}}));
+            }
+        }
+    }
     let fams = families();
     let handles: Vec<_> = fams.into_iter().map(|(name, spends)| std::thread::spawn(move || check_family(&name, &spends, thorough))).collect();
     for h in handles {
@@ -262,6 +296,16 @@ pub fn relations_ground(thorough: bool) -> EvalResult {
 
 pub fn replay_relations(input: &Value) -> (bool, String) {
     let fam = input["family"].as_str().unwrap_or("");
+    if input["relation"].as_str() == Some("verdict") {
+        let fork = input["fork"].as_str().unwrap_or(""); let strict = input["strict"].as_str().unwrap_or(""); let want = input["want"].as_bool().unwrap_or(true);
+        if let Some((_, spends)) = families().into_iter().find(|f| f.0 == fam) {
+            let ff = fork_flags().into_iter().find(|f| f.0 == fork).map(|f| f.1).unwrap_or(ConsensusFlags::empty());
+            let sf = strict_sets().into_iter().find(|f| f.0 == strict).map(|f| f.1).unwrap_or(ConsensusFlags::empty());
+            let got = run(&spends, ff | sf).is_ok();
+            return (got != want, format!("family {fam}, fork flags {fork}, strictness '{strict}': accepted = {got}, the rules say {want}"));
+        }
+        return (false, "unknown family".into());
+    }
     for (name, spends) in families() {
         if name == fam {
             let (_, fails) = check_family(&name, &spends, true);
